@@ -55,6 +55,19 @@ def _long_token_cases(path):
     return n
 
 
+def _history_cases(path):
+    """The history-dependent report grammars of C08 (a match under `!` in an abandoned alternative, progress, then
+    several attempts at the new position), and the same with the negated rule one level deeper."""
+    from props import c08
+    n = 0
+    with open(path, "w") as f:
+        for rec in c08._history_grammars():
+            for text in (rec["text"], rec["text"].replace('a = { "a" }', 'a = { a2 }\na2 = { "a" }')):
+                f.write(json.dumps({"text": text, "cases": [dict(c, exp={"k": "unknown"}) for c in rec["cases"]]}) + "\n")
+                n += 1
+    return n
+
+
 def run(ctx):
     quick = ctx.tier == "quick"
     vh = cargo_build()
@@ -78,6 +91,14 @@ def run(ctx):
     cases = os.path.join(ctx.work, "long_tokens.ndjson")
     _long_token_cases(cases)
     out = os.path.join(ctx.work, "d_long.ndjson")
+    s = run_json([vh, "c15-emit", "--cases", cases, "--out", out], timeout=6000)
+    os.remove(cases)
+    for k in tot:
+        tot[k] += s[k]
+    batches.append(out)
+    cases = os.path.join(ctx.work, "history.ndjson")
+    _history_cases(cases)
+    out = os.path.join(ctx.work, "d_hist.ndjson")
     s = run_json([vh, "c15-emit", "--cases", cases, "--out", out], timeout=6000)
     os.remove(cases)
     for k in tot:
